@@ -7,12 +7,12 @@
     reference carried by every abstract instruction).
 
     The full statement [C10_full] is FALSE of the faithful model (and of the implementation): see
-    the four [C10_refuted_*] witnesses.  [all_hits ops] computes, along the run, the decidable known
+    the three [C10_refuted_*] witnesses.  [all_hits ops] computes, along the run, the decidable known
     classes: 1 = clone-without-body-cache (the cache is emptied while retained definitions report
     qubits: clone_without_body_instructions, expand_calibrations, expand_defgate_sequences,
     wrap_in_loop with iterations <> 1; simplify only if the expansion output itself contains such a
-    definition), 2 = redefinition-stale-qubits (a calibration is rebound, by add or by
-    concatenation, and the old value reports a qubit the new one does not), 3 =
+    calibration definition), (2 = redefinition-stale-qubits was repaired by 1fc8c68 and is no longer
+    a class: [add_instruction] and [+=] now rebuild the cache when a calibration is replaced), 3 =
     framedef-qubits-uncounted, 4 = circuitdef-qubits-uncounted (an added DEFFRAME / DEFCIRCUIT /
     DEFGATE AS SEQUENCE mentions qubits that get_qubits does not report). *)
 From Coq Require Import List NArith Bool.
@@ -59,6 +59,13 @@ Theorem C10_rebuild_restores :
     Inv (resolve_placeholders p) /\ Inv (from_instructions (to_instructions p)).
 Proof. exact rebuild_restores. Qed.
 
+(** The cache's observable consequence: which frames a bare RESET uses / blocks
+    ([DefaultHandler::matching_frames]) is determined by the listing alone whenever the invariant
+    holds — in particular for every history outside the classes. *)
+Theorem C10_reset_frames_by_content :
+  forall p : program, WF p -> Inv p -> reset_match p = content_reset_match (to_instructions p).
+Proof. exact reset_match_content. Qed.
+
 (** The full statement is refuted, once per class, by concrete histories (replayed against the
     implementation by the harness, see known_findings.json). *)
 Theorem C10_refuted_clone :
@@ -68,12 +75,13 @@ Proof.
   split; [reflexivity|]. apply not_inv_of_inv_b. vm_compute. reflexivity.
 Qed.
 
-Theorem C10_refuted_stale :
-  exists ops, all_hits ops = [K_STALE] /\ ~ Inv (run ops).
-Proof.
-  exists [OAdd (Calib 0 1 [0; 5]); OAdd (Calib 0 0 [0; 0])]%N.
-  split; [reflexivity|]. apply not_inv_of_inv_b. vm_compute. reflexivity.
-Qed.
+(** The former class 2 (redefinition-stale-qubits) is repaired (1fc8c68): its witness now satisfies
+    the invariant (regression). *)
+Example C10_stale_repaired :
+  let ops := [OAdd (Calib 0 1 [0; 5]); OAdd (Calib 0 0 [0; 0])]%N in
+  all_hits ops = [] /\ inv_b (run ops) = true
+  /\ inv_b (step (run [OAdd (Calib 0 1 [0; 5])]%N) (OConcat [Calib 0 0 [0; 0]]%N)) = true.
+Proof. vm_compute. repeat split; reflexivity. Qed.
 
 Theorem C10_refuted_framedef :
   exists ops, all_hits ops = [K_FRAME] /\ ~ Inv (run ops).
@@ -94,13 +102,13 @@ Proof.
   intros [H _]. destruct C10_refuted_clone as [ops [_ Hn]]. apply Hn. apply H.
 Qed.
 
-(** ... and so is the equality clause: same listing, different programs (stale cache vs rebuilt). *)
+(** ... and so is the equality clause: same listing, different programs (emptied cache vs rebuilt). *)
 Theorem C10_equality_refuted :
   exists ops1 ops2,
     to_instructions (run ops1) = to_instructions (run ops2) /\ prog_eqb (run ops1) (run ops2) = false.
 Proof.
-  exists [OAdd (Calib 0 1 [0; 5]); OAdd (Calib 0 0 [0; 0])]%N.
-  exists [OAdd (Calib 0 1 [0; 5]); OAdd (Calib 0 0 [0; 0]); ORoundTrip]%N.
+  exists [OAdd (Calib 0 0 [0; 0]); OAdd (Body 0 [1]); OCloneWithoutBody]%N.
+  exists [OAdd (Calib 0 0 [0; 0]); OAdd (Body 0 [1]); OCloneWithoutBody; ORoundTrip]%N.
   vm_compute. split; reflexivity.
 Qed.
 
